@@ -8,7 +8,8 @@ from props import rt
 PID = "C14"
 LEVEL = "proof"
 MODULE = "Sigc.Props.C14"
-REQUIRED = []
+EXTRA_MODULES = ("Sigc.Props.Refine",)   # the refinement P ⊑ S': what the specification says holds of the mechanism model
+REQUIRED = ["Sigc.Refine.refines"]
 TRUSTED = rt.TRUSTED_RT
 ASSUMPTIONS = rt.ASSUMPTIONS_RT + []
 PARTIAL = []
